@@ -4,8 +4,10 @@
 #  (b) the demonstration passes on the pristine tree and fails with the patch.
 # Writes <mutant-dir>/confirm.json.
 d=$(cd "$1" && pwd)
-wt=/tmp/confirm_wt
-export CARGO_TARGET_DIR=/tmp/confirm_target CARGO_NET_OFFLINE=true
+# CONFIRM_WT / CONFIRM_TARGET: run several confirmations side by side, each in its own worktree
+wt=${CONFIRM_WT:-/tmp/confirm_wt}
+export CARGO_TARGET_DIR=${CONFIRM_TARGET:-/tmp/confirm_target} CARGO_NET_OFFLINE=true
+lg=/tmp/confirm_$(basename $wt)
 if [ ! -d $wt ]; then git -C /repo worktree add -q $wt HEAD; fi
 cd $wt && git checkout -q -- . && git clean -fdq && git reset -q --hard $(git -C /repo rev-parse HEAD)
 demo=$d/demo.rs
@@ -15,13 +17,13 @@ else
   crate=wtransport; feats="--features dangerous-configuration,quinn"
 fi
 mkdir -p $wt/$crate/tests
-run_demo() { cp $demo $wt/$crate/tests/demo.rs; timeout 900 cargo test -p $crate --offline $feats --test demo >/tmp/confirm_demo.log 2>&1; rc=$?; rm -f $wt/$crate/tests/demo.rs; return $rc; }
+run_demo() { cp $demo $wt/$crate/tests/demo.rs; timeout 900 cargo test -p $crate --offline $feats --test demo >${lg}_demo.log 2>&1; rc=$?; rm -f $wt/$crate/tests/demo.rs; return $rc; }
 run_demo; pristine_rc=$?
 git apply $d/patch.diff; apply_rc=$?
-timeout 1800 cargo test --workspace --no-fail-fast --offline >/tmp/confirm_suite.log 2>&1; suite_rc=$?
-suite=$(grep -E "^test result" /tmp/confirm_suite.log | tr '\n' ';')
+timeout 1800 cargo test --workspace --no-fail-fast --offline >${lg}_suite.log 2>&1; suite_rc=$?
+suite=$(grep -E "^test result" ${lg}_suite.log | tr '\n' ';')
 run_demo; mutant_rc=$?
-demo_tail=$(grep -E "^test .*FAILED|panicked|test result" /tmp/confirm_demo.log | head -5 | tr '\n' ';' | cut -c1-600)
+demo_tail=$(grep -E "^test .*FAILED|panicked|test result" ${lg}_demo.log | head -5 | tr '\n' ';' | cut -c1-600)
 git checkout -q -- . && git clean -fdq
 python3 - "$d" "$crate" "$pristine_rc" "$apply_rc" "$suite_rc" "$mutant_rc" "$suite" "$demo_tail" <<'PY'
 import json,sys
